@@ -261,3 +261,62 @@ class linear_transform:
         "orientation": "forall(lambda i: mateq(M(result._rotator, i), matmul3(M(old(self)._rotator, i), M(rotator, i))), "
                        "(0, %s))" % _N,
     }
+
+
+# ---------------------------------------------------------------------------
+# representations: reading a representation back and constructing from it describe the same orientation
+from pyvc.rotation import quat_to_matrix, from_rotvec_matrix
+from pyvc.contract import T as _T
+
+_HREP = dict(_H, qm=lambda q, i: quat_to_matrix(tuple(q.at((i, c)) for c in range(4))),
+             rvm=lambda v, i: from_rotvec_matrix([v.at((i, c)) for c in range(3)]))
+
+
+@contract("acryo.molecules.core:Molecules.quaternion", props=["C11"])
+class mol_quaternion:
+    """row i is a unit quaternion (scipy order x, y, z, w) of molecule i's rotation; an empty set gives a (0, 4) array"""
+    params = dict(self=_M, canonical=_T.Const(False))
+    helpers = _HREP
+    ensures = {"shape": "result.shape[0] == %s and result.shape[1] == 4" % _N,
+               "same_rotation": "forall(lambda i: mateq(qm(result, i), M(self._rotator, i)), (0, %s))" % _N}
+
+
+@contract("acryo.molecules.core:Molecules.rotvec", props=["C11"])
+class mol_rotvec:
+    params = dict(self=_M)
+    helpers = _HREP
+    ensures = {"shape": "result.shape[0] == %s and result.shape[1] == 3" % _N,
+               "same_rotation": "forall(lambda i: mateq(rvm(result, i), M(self._rotator, i)), (0, %s))" % _N}
+
+
+@contract("acryo.molecules.core:Molecules.matrix", props=["C11"])
+class mol_matrix:
+    params = dict(self=_M)
+    helpers = _HREP
+    ensures = {"shape": "result.shape[0] == %s and result.shape[1] == 3 and result.shape[2] == 3" % _N,
+               "same_rotation": "forall(lambda i: all(result[i, a, b] == M(self._rotator, i)[a][b] for a in range(3) for b in range(3)), (0, %s))" % _N}
+
+
+_CLS = _T.Class("acryo.molecules.core:Molecules", "_Molecules")
+
+
+@contract("acryo.molecules.core:Molecules.from_quat", props=["C11"])
+class from_quat:
+    """molecule i gets the rotation of quaternion i (normalised), position i; zero molecules are accepted"""
+    params = dict(cls=_CLS, pos=TArrN("N_in"), quat=TArrN("N_in", 4), features=_T.Const(None))
+    requires = ["forall(lambda i: quat[i, 0] * quat[i, 0] + quat[i, 1] * quat[i, 1] + quat[i, 2] * quat[i, 2] + quat[i, 3] * quat[i, 3] > 0, (0, pos.shape[0]))",
+                "pos.shape[0] >= 0"]
+    helpers = _HREP
+    ensures = {"count": "result._pos.shape[0] == pos.shape[0]",
+               "orientation_of_the_quaternion": "forall(lambda i: mateq(M(result._rotator, i), qm(quat, i)), (0, pos.shape[0]))",
+               "positions": "forall(lambda i: all(result._pos[i, a] == pos[i, a] for a in range(3)), (0, pos.shape[0]))"}
+
+
+@contract("acryo.molecules.core:Molecules.from_rotvec", props=["C11"])
+class from_rotvec:
+    params = dict(cls=_CLS, pos=TArrN("N_in"), vec=TArrN("N_in", 3), features=_T.Const(None))
+    requires = ["pos.shape[0] >= 0"]
+    helpers = _HREP
+    ensures = {"count": "result._pos.shape[0] == pos.shape[0]",
+               "orientation_of_the_vector": "forall(lambda i: mateq(M(result._rotator, i), rvm(vec, i)), (0, pos.shape[0]))",
+               "positions": "forall(lambda i: all(result._pos[i, a] == pos[i, a] for a in range(3)), (0, pos.shape[0]))"}
